@@ -35,22 +35,50 @@ Proof.
   - destruct h as [|b h]; [discriminate|]. cbn. injection Hl as Hl. rewrite (IH h t Hl). reflexivity.
 Qed.
 
+(* one byte-mask test: if the byte at bit offset a is zero, the value fits below it *)
+Lemma land_byte_zero a u : 0 <= a -> 0 <= u < 2 ^ (a + 8) -> Z.land u (255 * 2 ^ a) = 0 -> u < 2 ^ a.
+Proof.
+  intros Ha Hu H.
+  assert (H1 : Z.shiftr (Z.land u (Z.shiftl 255 a)) a = 0)
+    by (rewrite Z.shiftl_mul_pow2 by lia; rewrite H; apply Z.shiftr_0_l).
+  rewrite Z.shiftr_land, Z.shiftr_shiftl_l in H1 by lia.
+  replace (a - a) with 0 in H1 by lia. rewrite Z.shiftl_0_r in H1.
+  change 255 with (Z.ones 8) in H1. rewrite Z.land_ones in H1 by lia. rewrite Z.shiftr_div_pow2 in H1 by lia.
+  assert (Hp : 0 < 2 ^ a) by (apply Z.pow_pos_nonneg; lia).
+  assert (Hd : 0 <= u / 2 ^ a < 2 ^ 8).
+  { split; [apply Z.div_pos; lia|]. apply Z.div_lt_upper_bound; [lia|]. rewrite <- Z.pow_add_r by lia. lia. }
+  rewrite Z.mod_small in H1 by exact Hd.
+  apply Z.div_small_iff in H1; lia.
+Qed.
+
+(* the generated tables are the byte masks 0xFF << 8(k-1), widest first: a changed mask in the
+   source breaks these two lemmas *)
 Lemma nbytes32_bound w : 0 <= w < 2 ^ 32 -> w < 256 ^ Z.of_nat (nbytes32 w) /\ (nbytes32 w <= 4)%nat.
 Proof.
-  intros H. unfold nbytes32.
-  destruct (2 ^ 24 <=? w) eqn:E1; [cbn; lia|]. apply Z.leb_gt in E1.
-  destruct (2 ^ 16 <=? w) eqn:E2; [cbn in *; lia|]. apply Z.leb_gt in E2.
-  destruct (2 ^ 8 <=? w) eqn:E3; [cbn in *; lia|]. apply Z.leb_gt in E3.
-  destruct (w =? 0) eqn:E4; [apply Z.eqb_eq in E4; cbn; lia|cbn in *; lia].
+  intros H. unfold nbytes32, nbytes_of, PackMasks.nb32_masks. cbn [find fst snd].
+  destruct (Z.land w 4278190080 =? 0) eqn:E1; cbn [negb]; [|cbn; lia]. apply Z.eqb_eq in E1.
+  assert (H1 : w < 2 ^ 24) by (apply (land_byte_zero 24); [lia|cbn; lia|exact E1]).
+  destruct (Z.land w 16711680 =? 0) eqn:E2; cbn [negb]; [|cbn in *; lia]. apply Z.eqb_eq in E2.
+  assert (H2 : w < 2 ^ 16) by (apply (land_byte_zero 16); [lia|cbn; lia|exact E2]).
+  destruct (Z.land w 65280 =? 0) eqn:E3; cbn [negb]; [|cbn in *; lia]. apply Z.eqb_eq in E3.
+  assert (H3 : w < 2 ^ 8) by (apply (land_byte_zero 8); [lia|cbn; lia|exact E3]).
+  destruct (Z.land w 255 =? 0) eqn:E4; cbn [negb]; [|cbn in *; lia]. apply Z.eqb_eq in E4.
+  assert (H4 : w < 2 ^ 0) by (apply (land_byte_zero 0); [lia|cbn; lia|exact E4]).
+  cbn in *. lia.
 Qed.
 
 Lemma nbytes64_bound u : 0 <= u < 2 ^ 64 -> u < 256 ^ Z.of_nat (nbytes64 u) /\ (nbytes64 u <= 8)%nat.
 Proof.
-  intros H. unfold nbytes64.
-  destruct (2 ^ 56 <=? u) eqn:E1; [cbn in *; lia|]. apply Z.leb_gt in E1.
-  destruct (2 ^ 48 <=? u) eqn:E2; [cbn in *; lia|]. apply Z.leb_gt in E2.
-  destruct (2 ^ 40 <=? u) eqn:E3; [cbn in *; lia|]. apply Z.leb_gt in E3.
-  destruct (2 ^ 32 <=? u) eqn:E4; [cbn in *; lia|]. apply Z.leb_gt in E4.
+  intros H. unfold nbytes64, nbytes_of, PackMasks.nb64_masks. cbn [find fst snd].
+  destruct (Z.land u 18374686479671623680 =? 0) eqn:E1; cbn [negb]; [|cbn in *; lia]. apply Z.eqb_eq in E1.
+  assert (H1 : u < 2 ^ 56) by (apply (land_byte_zero 56); [lia|cbn; lia|exact E1]).
+  destruct (Z.land u 71776119061217280 =? 0) eqn:E2; cbn [negb]; [|cbn in *; lia]. apply Z.eqb_eq in E2.
+  assert (H2 : u < 2 ^ 48) by (apply (land_byte_zero 48); [lia|cbn; lia|exact E2]).
+  destruct (Z.land u 280375465082880 =? 0) eqn:E3; cbn [negb]; [|cbn in *; lia]. apply Z.eqb_eq in E3.
+  assert (H3 : u < 2 ^ 40) by (apply (land_byte_zero 40); [lia|cbn; lia|exact E3]).
+  destruct (Z.land u 1095216660480 =? 0) eqn:E4; cbn [negb]; [|cbn in *; lia]. apply Z.eqb_eq in E4.
+  assert (H4 : u < 2 ^ 32) by (apply (land_byte_zero 32); [lia|cbn; lia|exact E4]).
+  rewrite Z.mod_small by lia.
   destruct (nbytes32_bound u ltac:(lia)). split; [assumption|lia].
 Qed.
 
